@@ -28,7 +28,7 @@ ASSUMPTIONS = ['uts.thresholding.isodata is trusted as the dependency\'s definit
                'an index whose criterion is within 1e-9 relative (+ noise floor) of the optimum is accepted (ties, rounding)',
                'Menger on exactly collinear curves (all curvatures zero) is undefined and skipped',
                'L-method: n >= 5; refinement limit in {4,5,10}']
-BOUNDS = {'quick': {'curvature/DFDT/Menger': 'A n=3..5 complete, A12 n=6, A1 n=7, C n<=5', 'L-method': 'A12 n=5, A1 n=6,7, Y013 n=8; 2 fits x 2 costs; 2 fits x 3 refinements x limit {4,5,10}'},
+BOUNDS = {'quick': {'curvature/DFDT/Menger': 'A n=3..5 complete, A12 n=6, A1 n=7, C n<=5', 'L-method': 'A12 n=5, A1 n=6,7, Y013 n=8; 2 fits x 2 costs; 2 fits x 3 refinements x limit {4,5,10}; get_knee also with x+2^31 and x-2^28 on A1 n=6, G12Y013 n=5'},
           'thorough': {'curvature/DFDT/Menger': 'A n<=6 complete, A12 n=7, A1 n=8', 'L-method': 'A12 n=5,6, A1 n=7,8, Y013 n=9'}}
 TECHNIQUE = 'bounded-exhaustive enumeration of curves on the real detectors; optimum of each criterion recomputed in exact rational arithmetic; loops under a step monitor'
 LEVEL_TEXT = ('Model checking: every curve of the alphabets up to the bound through every detector option; the returned index must be an interior optimiser of an '
@@ -47,6 +47,9 @@ def units(tier, seed):
     basic.append((b.name, 4, 8))
     u = [('basic', prof, n, k, K) for prof, n, K in basic for k in range(K)]
     u += [('lm', prof, n, k, K) for prof, n, K in lm for k in range(K)]
+    # large x offsets (timestamps): exposes numerically naive fitting code; exact reference, looser tolerance
+    off = [('A1', 6, 16), ('G12Y013', 5, 16)] if tier == 'quick' else [('A1', 6, 16), ('A1', 7, 64), ('G12Y013', 6, 128)]
+    u += [('lmoff', prof, n, k, K) for prof, n, K in off for k in range(K)]
     return u
 
 
@@ -224,10 +227,10 @@ def check_basic(det, xs, ys):
     return len(set(g[1:-1])) > 1, [], False
 
 
-def check_lm_getknee(xs, ys, fit, cost):
+def check_lm_getknee(xs, ys, fit, cost, loose=False):
     n = len(xs)
     pts = curves.points(xs, ys)
-    case = {'oracle': 'lm_get', 'x': list(xs), 'y': list(ys), 'fit': fit, 'cost': cost}
+    case = {'oracle': 'lm_get', 'x': list(xs), 'y': list(ys), 'fit': fit, 'cost': cost, 'loose': loose}
     key = 'lmethod.get_knee[%s,%s] %s' % (fit, cost, lib.pts_key(xs, ys))
     fn = 'lmethod.get_knee'
     st, v, _ = lib.guarded(4 * n + 8, lmethod.get_knee, pts[:, 0].copy(), pts[:, 1].copy(), FITS[fit], COSTS[cost])
@@ -240,6 +243,8 @@ def check_lm_getknee(xs, ys, fit, cost):
     mn = min(err.values())
     scale = max(abs(float(v)) for v in ys) + 1e-300
     tol = 1e-9 * abs(mn) + (1e-7 * scale if cost == 'rmse' else 1e-12 * scale * scale)
+    if loose:
+        tol = 1e-6 * abs(mn) + (1e-4 * scale if cost == 'rmse' else 1e-6 * scale * scale)
     if err[got] > mn + tol:
         return True, [Failure(fn, 'not-the-minimiser', key, case, 'returned %d (error %r); minimum %r at %s; errors %s' % (
             got, err[got], mn, [i for i, e in err.items() if e == mn], err), (n, 0))]
@@ -287,6 +292,23 @@ def run_unit(unit, res):
     P = curves.get(prof)
     first = True
     for i, xs, ys in P.shard(n, k, K):
+        if kind == 'lmoff':
+            for off in (2.0 ** 31, -(2.0 ** 28)):
+                X = [float(v) + off for v in xs]
+                for fit in FITS:
+                    for cost in COSTS:
+                        nt, fs = check_lm_getknee(X, ys, fit, cost, loose=True)
+                        res.count('evaluations')
+                        res.count('states')
+                        res.count('transitions', max(n - 4, 1))
+                        res.count('offset_cases')
+                        for f in fs:
+                            res.fail(f)
+                        if not fs:
+                            res.count('traces')
+                        if nt:
+                            res.count('nontrivial')
+            continue
         if kind == 'basic':
             for det in ('curvature', 'dfdt', 'menger'):
                 nt, fs, skipped = check_basic(det, xs, ys)
@@ -339,5 +361,5 @@ def replay(case):
     if o == 'basic':
         return check_basic(case['detector'], case['x'], case['y'])[1]
     if o == 'lm_get':
-        return check_lm_getknee(case['x'], case['y'], case['fit'], case['cost'])[1]
+        return check_lm_getknee(case['x'], case['y'], case['fit'], case['cost'], case.get('loose', False))[1]
     return check_lm_knee(case['x'], case['y'], case['fit'], case['it'], case['limit'])[1]
